@@ -1,8 +1,8 @@
 INIT GenInit
 NEXT GenNext
 CONSTANTS
-  Dev = "none"
-  Configs <- ConfigsSim
+  Dev = "echo-1000"
+  Configs <- ConfigsDevBody
   NegSet <- Plain
   WBuf = 128
 INVARIANTS Emit
